@@ -37,6 +37,9 @@ var standins = map[string][]standin{
 		{Name: "C0616", Pkg: "knx/dpt", File: "dpt_16_test.go", Run: "^TestKvcStandinC0616$",
 			Domain: "NOT exhaustive: 15-byte payloads of 16.000/16.001 in which two adjacent octets range over all 65,536 values at every position while the other octets are all 0x00, all 'A' or all 0xE9 (5.1 million payloads)",
 			Stands: "round trip of the two string types: the deductive lemma exceeds the path budget (string <-> []rune conversions inside two 14-step loops); per-octet independence of the codec is NOT proved"}},
+	"C16": {{Name: "C16TCP", Pkg: "knx/knxnet", File: "knxnet_tcp_test.go", Run: "^TestKvcStandinC16TCP$",
+		Domain: "NOT exhaustive: one stream of 6 frames (120 bytes, 5 service types) over loopback TCP: unsplit, every single cut position, 1-byte dribble, cuts at frame boundaries, regular chunks of 2..13 bytes (134 segmentations); skipped (and said so) where loopback TCP is unavailable",
+		Stands: "independence of the TCP receiver from segmentation, which the deductive check inherits from the assumed byte-stream contract of bufio.Reader.Peek/io.ReadFull; also exactly-once, in-order surfacing and closing of Inbound after the peer closes"}},
 	"C18": {{Name: "C18", Pkg: "knx/cemi", File: "cemi_addr_test.go", Run: "^TestKvcStandinC18$",
 		Domain: "all 65,535 non-zero group and individual addresses (format then parse); all 3-level component triples in [-3,35]x[-3,19]x[-3,259], 2-level pairs in [-3,259]x[-3,2051], raw values in [-3,65539]; 42 malformed texts; every argument combination of the four component constructors",
 		Stands: "the composition of the parsers/formatters with the real fmt.Sprintf, strings.Split and strconv.Atoi, which the deductive check replaces by assumed contracts over an abstract decimal-text view"}},
